@@ -630,7 +630,10 @@ func (m *Manager) readIntoTable(id uint64, reader io.Reader) error {
 				limit = 1024 * 1024
 			}
 			if uint64(estimatedSize) < limit {
-				batchCmd.Batch = append(batchCmd.Batch, cmd.Kv)
+				// Commands without a pair (the final DUMMY carrying the leader index) add nothing to the batch.
+				if cmd.Kv != nil {
+					batchCmd.Batch = append(batchCmd.Batch, cmd.Kv)
+				}
 				continue
 			}
 		}
@@ -666,8 +669,10 @@ func (m *Manager) readIntoTable(id uint64, reader io.Reader) error {
 			break
 		}
 		// The record that reached the limit was not part of the proposed batch, it starts the next one.
-		batchCmd.Batch = append(batchCmd.Batch, cmd.Kv)
-		estimatedSize = n
+		if cmd.Kv != nil {
+			batchCmd.Batch = append(batchCmd.Batch, cmd.Kv)
+			estimatedSize = n
+		}
 	}
 	return nil
 }
